@@ -86,6 +86,18 @@ def coq_larr(a):
     return f"(LTerm {STATUS[a[1]]})"
 
 
+def coq_tag(t):
+    return "[" + ";".join(t.split(".")) + "]%N"
+
+
+def coq_atok(a):
+    if a[0] == "E":
+        return f"(AT {coq_tag(a[1])})"
+    if a[0] == "I":
+        return f"(AI {coq_tag(a[1])})"
+    return "ATerm"
+
+
 def step_arrivals(c):
     """the arrival list of a 'step' case: every body token p.i and IterationTermination p.k, shuffled; then Term"""
     arr = []
@@ -109,36 +121,46 @@ class C06(Prop):
     CASE_TIMEOUT = 300
     SHARD_TIMEOUT = 2400
     LEVEL_TEXT = (
-        "Theorems (Coq, closed under the global context) over a model of LoopOutputStep.run with the CWL all/last "
-        "output policies and of LoopCombinator's iteration counters: for any set of loop instances (distinct prefixes), "
-        "any iteration counts (0 and >= 10 included) and ANY arrival order of the iteration tokens p.0..p.(k-1) and the "
-        "iteration-termination token p.k before the first termination token, the step emits exactly one token per "
-        "instance, tagged p: the values in iteration order (all) / the value of iteration k-1 or null (last), and "
-        "terminates at the termination token (C06_step_all, C06_step_last); the combinator numbers the iterations of "
-        "each instance 0,1,2,... whatever the interleaving of instances (C06_iteration_tags). The early-exit clause is "
-        "NOT proved for the loop sub-network: C06_no_early_exit_refuted shows that the step, as written "
-        "(all(self.termination_map) tests the dict's keys), terminates at the first termination token even when an "
-        "instance is incomplete; that this order of arrival does not occur through the translator's wiring is only "
-        "exercised (whole CWL loop runs: scatter around a loop, counts 0..15, both output methods), not proved.")
+        "Theorems (Coq, closed under the global context). (1) Loop output step, model of LoopOutputStep.run with the CWL "
+        "all/last policies: for any set of loop instances (distinct prefixes), any iteration counts (0 and >= 10 included) "
+        "and ANY arrival order of the iteration tokens p.0..p.(k-1) and the iteration-termination token p.k before the "
+        "first termination token, the step emits exactly one token per instance, tagged p: the values in iteration order "
+        "(all) / the value of iteration k-1 or null (last), and terminates at the termination token (C06_step, _all, "
+        "_last). (2) Wiring: the sub-network the translator builds (input forwarder, LoopCombinatorStep with its "
+        "iteration_termination_checklist and LoopCombinator counters, loop-when step with skip port, body, output and "
+        "back-propagation forwarders, loop output step, loop-terminator with LoopTerminationCombinator) as an "
+        "interleaving transition system over FIFO ports: in EVERY reachable state, for every loop condition and every "
+        "behaviour of the loop output step, a termination token has reached (or is on its way to) the loop output step "
+        "only if that step has already emitted an output for every instance (C06_no_early_exit; invariant proof over the "
+        "seven moves). C06_all_dict_keys / C06_no_early_exit_refuted record that the step alone does NOT have this "
+        "property (all(self.termination_map) tests the dict's keys): it is the wiring that provides it. (3) The "
+        "combinator numbers the iterations of each instance 0,1,2,... (C06_iteration_tags). Models are tied to /repo by "
+        "driving the real CWLLoopOutput*Step, LoopCombinatorStep, LoopCombinator and CWLLoopConditionalStep token by "
+        "token and comparing with vm_compute, plus whole CWL loop workflows judged by an oracle from the property text.")
     LEVEL_NOTE = (
-        "partial: step-level theorems are full-strength; 'the loop step never terminates before every instance emitted' "
-        "holds at step level only under the hypothesis that every instance's tokens precede the termination token; the "
-        "loop sub-network (combinator step checklist, conditional step, forwarders) is not modelled. Trusted: Coq kernel "
-        "+ vm_compute; hand-written Loop/Model.v tied to the code by the correspondence; sorted() modelled as stable "
-        "insertion sort; JS evaluation, body execution and asyncio are exercised, not modelled.")
+        "partial in scope, not in strength: the wiring theorem is for one loop variable, COMPLETED termination tokens, a "
+        "body and forwarders emitting one token per token with the same tag, instances of equal tag depth; the loop "
+        "output step is a parameter of the wiring theorem (list-level tags) and is not instantiated with the string-level "
+        "model of LoopOutputStep (C06_loop_output_runs_until_term gives the proviso the wiring model relies on). The "
+        "forwarders, the body and LoopTerminationCombinator are modelled from reading the code and exercised only by "
+        "whole-loop runs. Trusted: Coq kernel + vm_compute; hand-written Loop/Model.v and Loop/Net.v; sorted() modelled as "
+        "stable insertion sort; JS evaluation, body execution and asyncio are exercised, not modelled.")
     TECHNIQUE = ("Coq proof (projection on one loop instance, closed form on incomplete prefixes, uniqueness of sorted "
                  "permutations) + vm_compute correspondence against the real steps + whole-loop CWL runs judged by the oracle")
     RULE = ("step: 1..4 instances (prefixes of depth 1..3), counts 0..15 (bias 0,1,9..12), all/last, iteration tokens and "
             "iteration-termination tokens in a seeded shuffle, then the termination token; early/raw: termination token "
             "before completion, duplicated or missing iteration-termination tokens, single-component tags, several "
-            "statuses (model fidelity only); retag: real LoopCombinator fed interleaved instances and iterations; wf: CWL "
+            "statuses (model fidelity only); retag: real LoopCombinator fed interleaved instances and iterations; cstep: real LoopCombinatorStep fed "
+            "interleaved instance / looped-back / iteration-termination tokens with the termination token early or late, "
+            "well-formed or with junk; when: real CWLLoopConditionalStep with a JS condition, output vs skip port; wf: CWL "
             "workflows (loop inside scatter or plain loop, ExpressionTool body) run by the real engine. Non-trivial = a "
             "count >= 10 or 0, or >= 2 instances, or a non-identity order; every wf case. Distinct = distinct canonical JSON.")
-    TRUSTED = ("model: Loop/Model.v (LoopOutputStep.run, CWLLoopOutputAllStep/LastStep._process_output, "
-               "LoopCombinator._product counters) is hand-written; LoopCombinatorStep, CWLLoopConditionalStep, "
-               "LoopTerminationCombinator and the forwarders are exercised by whole-loop runs but not modelled",)
-    ASSUMPTIONS = ("every iteration token and the iteration-termination token of every instance reach the loop output "
-                   "step before the first termination token (a consequence of the translator's wiring that is not proved)",
+    TRUSTED = ("models: Loop/Model.v (LoopOutputStep.run, CWLLoopOutputAllStep/LastStep._process_output, "
+               "LoopCombinator._product counters) and Loop/Net.v (LoopCombinatorStep.run, CWLLoopConditionalStep, "
+               "LoopTerminationCombinator, ForwardTransformers, terminate()) are hand-written; the last three and the "
+               "port topology are tied to the code only by reading cwl/translator.py and by whole-loop runs",)
+    ASSUMPTIONS = ("one loop variable; termination tokens carry COMPLETED; the body emits one token per input token with the "
+                   "same tag; all instances of a loop have the same tag depth",
                    "tags are well-formed dotted decimals; the body is deterministic")
 
     # ---------------------------------------------------------------- generation
@@ -173,8 +195,14 @@ class C06(Prop):
                               "order": self._seed(rng)})
             elif r < 0.8:
                 cases.append(self._raw(rng))
-            else:
+            elif r < 0.9:
                 cases.append(self._retag(rng))
+            else:
+                cases.append(self._cstep(rng))
+        for _ in range({"quick": 8, "thorough": 40, "extended": 12}[tier]):
+            k = rng.randrange(0, 6)
+            cases.append({"f": "when", "lim": rng.choice([0, 2, 5]),
+                          "toks": [[self._prefix(rng, 2) + "." + str(i), rng.randrange(0, 8)] for i in range(k)]})
         for _ in range(nwf):
             scat = rng.random() < 0.75
             lim = rng.choice([3, 10, 11, 13, 15])
@@ -214,6 +242,38 @@ class C06(Prop):
                 arr.append(["T", rng.choice(sts)])
         return {"f": "raw", "pol": rng.choice(["all", "last"]), "arr": arr}
 
+    def _cstep(self, rng):
+        """tokens reaching the LoopCombinatorStep: per instance p the token p, the looped-back tokens p.0 .. p.(k-1),
+        then IterationTermination(p); instances interleaved; the external termination token somewhere after the
+        last instance token (well-formed) or anywhere, plus junk (not well-formed)"""
+        depth = rng.choice([1, 2, 2, 3])
+        ps = []
+        for _ in range(1 if depth == 1 else rng.randrange(1, 5)):
+            p = self._prefix(rng, depth)
+            if p not in ps:
+                ps.append(p)
+        seqs = [[["E", p]] + [["E", f"{p}.{i}"] for i in range(rng.choice([0, 0, 1, 2, 3, 11]))] + [["I", p]] for p in ps]
+        wf = rng.random() < 0.7
+        firsts_left = len(seqs)
+        arr, term_put = [], False
+        while any(seqs):
+            if firsts_left == 0 and not term_put and rng.random() < 0.3:
+                arr.append(["T"])
+                term_put = True
+                continue
+            s = rng.choice([s for s in seqs if s])
+            if len(s) >= 2 and s[0][1] in ps and s[0][0] == "E" and all(s[0][1] != x[1] for x in arr):
+                firsts_left -= 1
+            arr.append(s.pop(0))
+        if not term_put and (wf or rng.random() < 0.7):
+            arr.append(["T"])
+        if not wf:
+            for _ in range(rng.randrange(1, 4)):
+                junk = rng.choice([["I", self._prefix(rng, depth)], ["E", self._prefix(rng, depth) + ".0"], ["T"],
+                                   ["I", rng.choice(ps) + ".0"]])
+                arr.insert(rng.randrange(0, len(arr) + 1), junk)
+        return {"f": "cstep", "arr": arr, "wf": wf, "insts": ps}
+
     def _retag(self, rng):
         """tags carried by the tokens reaching the loop combinator: each instance p first, then p.0, p.1, ...
         (the body keeps the iteration tag); instances interleaved at random"""
@@ -241,6 +301,10 @@ class C06(Prop):
         from streamflow.workflow.combinator import LoopCombinator
 
         self.Status, self.All, self.Last, self.LoopCombinator = Status, CWLLoopOutputAllStep, CWLLoopOutputLastStep, LoopCombinator
+        from streamflow.cwl.step import CWLLoopConditionalStep
+        from streamflow.workflow.step import LoopCombinatorStep
+
+        self.LoopCombinatorStep, self.When = LoopCombinatorStep, CWLLoopConditionalStep
 
     async def _loop_step(self, pol, arr):
         e, sd = self.e, self.sd
@@ -276,6 +340,82 @@ class C06(Prop):
             outs = [sd.canon_tok(e, x) for x in out.token_list if not isinstance(x, e.TerminationToken)]
             terms = [x.value.name for x in out.token_list if isinstance(x, e.TerminationToken)]
             o = {"out": outs, "terms": terms, "status": st.status.name if finished else None, "fed": len(used)}
+            if err:
+                o["err"] = err
+            return o
+        finally:
+            await ctx.close()
+
+    def _canon(self, port):
+        e = self.e
+        out = []
+        for x in port.token_list:
+            if isinstance(x, e.TerminationToken):
+                out.append(["T", x.value.name])
+            elif isinstance(x, e.IterationTerminationToken):
+                out.append(["I", x.tag])
+            else:
+                out.append(["E", x.tag])
+        return out
+
+    async def _comb_step(self, arr):
+        e, sd = self.e, self.sd
+        ctx = e.build_context()
+        try:
+            wf = e.Workflow(ctx, config={}, name="w")
+            inp, out = wf.create_port(e.ObsPort), wf.create_port()
+            comb = self.LoopCombinator(name="/s-loop-combinator", workflow=wf)
+            comb.add_item("x")
+            st = wf.create_step(self.LoopCombinatorStep, name="/s-loop-combinator", combinator=comb)
+            st.add_input_port("x", inp)
+            st.add_output_port("x", out)
+            await wf.save(ctx.database)
+            feed = []
+            for a in arr:
+                tok = e.Token(0, tag=a[1]) if a[0] == "E" else e.IterationTerminationToken(a[1]) if a[0] == "I" \
+                    else e.TerminationToken()
+                if a[0] == "E":
+                    await tok.save(ctx.database)
+                feed.append(("x", tok))
+            inp_feed = inp.feed
+
+            def feed_keep_open(tok):        # the step keeps reading after a termination token while its checklist is not empty
+                inp_feed(tok)
+                inp.terminated = False
+            inp.feed = feed_keep_open
+            used = []
+            try:
+                finished = await sd.drive(st, {"x": inp}, feed, lambda pn, tok: used.append(1))
+                err = None
+            except Exception as ex:
+                finished, err = False, type(ex).__name__
+            o = {"out": self._canon(out), "fin": finished, "fed": len(used)}
+            if err:
+                o["err"] = err
+            return o
+        finally:
+            await ctx.close()
+
+    async def _when_step(self, c):
+        e, sd = self.e, self.sd
+        ctx = e.build_context()
+        try:
+            wf = e.Workflow(ctx, config={}, name="w")
+            inp, outd, oute = wf.create_port(e.ObsPort), wf.create_port(), wf.create_port()
+            st = wf.create_step(self.When, name="/s-loop-when", expression=f"$(inputs.x < {c['lim']})", full_js=True)
+            st.add_input_port("x", inp)
+            st.add_output_port("x", outd)
+            st.add_skip_port("o", oute)
+            await wf.save(ctx.database)
+            feed = [("x", e.Token(v, tag=t)) for t, v in c["toks"]] + [("x", e.TerminationToken())]
+            for _, tok in feed[:-1]:
+                await tok.save(ctx.database)
+            try:
+                finished = await sd.drive(st, {"x": inp}, feed)
+                err = None
+            except Exception as ex:
+                finished, err = False, type(ex).__name__
+            o = {"D": self._canon(outd), "E": self._canon(oute), "fin": finished, "status": st.status.name}
             if err:
                 o["err"] = err
             return o
@@ -362,6 +502,10 @@ class C06(Prop):
             return self._wf_run(c)
         if c["f"] == "retag":
             return asyncio.run(self._retag_run(c["tags"]))
+        if c["f"] == "cstep":
+            return asyncio.run(self._comb_step(c["arr"]))
+        if c["f"] == "when":
+            return asyncio.run(self._when_step(c))
         arr = step_arrivals(c) if c["f"] == "step" else c["arr"]
         o = asyncio.run(self._loop_step(c["pol"], arr))
         o["arr"] = arr
@@ -404,6 +548,25 @@ class C06(Prop):
                 want.append(f"{p}.{seen[p]}")
             if o.get("out") != want:
                 return ("iteration-numbering", f"combinator tags {o.get('out')}, expected {want}"[:700])
+        if c["f"] == "cstep":
+            if o.get("err"):
+                return ("step-raises", f"loop combinator step raised {o['err']}")
+            if c["wf"]:
+                fed = c["arr"][:o["fed"]]
+                started = [a[1] for a in fed if a[0] == "E" and a[1] in c["insts"]]
+                ended = [a[1] for a in fed if a[0] == "I"]
+                if o["fin"] and (["T"] not in fed or any(p not in ended for p in started)):
+                    return ("combinator-early-exit", f"loop combinator step terminated after {fed} although an "
+                                                     f"instance it had started was not finished")
+                if not o["fin"] and ["T"] in c["arr"] and all(p in ended for p in c["insts"]):
+                    return ("combinator-terminates", f"loop combinator step still waiting after {c['arr']}")
+        if c["f"] == "when":
+            if o.get("err") or not o.get("fin"):
+                return ("step-raises", f"loop-when step failed: {o}")
+            wantD = [["E", t] for t, v in c["toks"] if v < c["lim"]]
+            wantE = [["I", t] for t, v in c["toks"] if not v < c["lim"]]
+            if [x for x in o["D"] if x[0] != "T"] != wantD or [x for x in o["E"] if x[0] != "T"] != wantE:
+                return ("when-routing", f"loop-when routed {o['D']} / {o['E']}, expected {wantD} / {wantE}")
         if c["f"] == "wf":
             lim = c["lim"]
 
@@ -426,6 +589,17 @@ class C06(Prop):
             if not all(TAG.match(t) for t in c["tags"]):
                 return None
             return f"CRetag {coq_list([coq_str(t) for t in c['tags']])} {coq_list([coq_str(t) for t in o['out']])}"
+        if c["f"] == "cstep":
+            if o.get("err") or not all(TAG.match(a[1]) for a in c["arr"] if a[0] != "T"):
+                return None
+            arr = c["arr"][:o["fed"]]
+            return (f"CCombStep {coq_list([coq_atok(a) for a in arr])} {coq_list([coq_atok(a) for a in o['out']])} "
+                    f"{'true' if o['fin'] else 'false'}")
+        if c["f"] == "when":
+            if o.get("err") or len({t for t, _ in c["toks"]}) != len(c["toks"]):
+                return None
+            arr = coq_list([f"({coq_tag(t)}, {'true' if v < c['lim'] else 'false'})" for t, v in c["toks"]])
+            return (f"CWhen {arr} {coq_list([coq_atok(a) for a in o['D']])} {coq_list([coq_atok(a) for a in o['E']])}")
         if c["f"] in ("step", "raw"):
             if o.get("err"):
                 return None
@@ -445,7 +619,7 @@ class C06(Prop):
             return len(c["insts"]) >= 2 or c["order"] != 0 or any(i["k"] >= 10 or i["k"] == 0 for i in c["insts"])
         if c["f"] == "retag":
             return len(c["tags"]) >= 3
-        if c["f"] == "raw":
+        if c["f"] in ("raw", "cstep"):
             return len(c["arr"]) >= 3
         return True
 
@@ -467,6 +641,9 @@ class C06(Prop):
         elif c["f"] == "raw":
             for i in range(len(c["arr"])):
                 yield {**c, "arr": c["arr"][:i] + c["arr"][i + 1:]}
+        elif c["f"] == "cstep":
+            for i in range(len(c["arr"]) - 1, -1, -1):
+                yield {**c, "arr": c["arr"][:i] + c["arr"][i + 1:], "wf": False}
         elif c["f"] == "retag":
             for i in range(len(c["tags"]) - 1, -1, -1):
                 yield {**c, "tags": c["tags"][:i] + c["tags"][i + 1:]}
